@@ -103,7 +103,7 @@ OTHER_KINDS = [["fifo", {"searcher": "random"}], ["hyperband", {"searcher": "ran
 # ---------------------------------------------------------------------------------------------------------
 # case generation
 # ---------------------------------------------------------------------------------------------------------
-def gen_sched_case(rng, variant, gp=False, profile=False, rich=False):
+def gen_sched_case(rng, variant, gp=False, profile=False, rich=False, capped=False):
     kind, base, cfg = variant
     p = dict(base)
     if kind in ("hyperband", "synchb", "dehb"):
@@ -138,6 +138,15 @@ def gen_sched_case(rng, variant, gp=False, profile=False, rich=False):
                                "opt_nstarts": rng.choice([1, 2]), "num_init_candidates": rng.choice([10, 30])}
         if base.get("searcher") == "bayesopt" and rng.random() < 0.3:
             p["search_options"]["opt_skip_init_length"] = 2
+        if kind == "fifo" and base.get("searcher") == "bayesopt" and (capped or rng.random() < 0.4):
+            # more observations than the cap of the surrogate's data set: the random down-sampling of the
+            # observations (max_size_data_for_model, max_size_top_fraction < 1) must use the seeded generator;
+            # >= 12 sequential trials, both global generators perturbed differently in the twins between calls
+            p["search_options"].update(max_size_data_for_model=rng.choice([4, 5, 6]),
+                                       max_size_top_fraction=rng.choice([0.25, 0.34, 0.5]),
+                                       num_init_random=rng.choice([2, 3]))
+            p["max_t"] = 1
+            capped = True
     space = SPACES[rng.choice(GP_SPACES)] if gp else rng.choice(SPACES)
     if base.get("searcher") == "grid":
         space = SPACES[rng.choice(GRID_SPACES)]
@@ -165,6 +174,8 @@ def gen_sched_case(rng, variant, gp=False, profile=False, rich=False):
                 workers=rng.choice([1, 2, 3, 4]), steps=rng.choice([18, 30] if gp else [25, 60, 120]),
                 interleave=(not gp), other_kinds=OTHER_KINDS if not gp else [], profile=profile,
                 ties=rng.random() < 0.3, p_fail=rng.choice([0.0, 0.05, 0.15]))
+    if gp and capped and kind == "fifo":
+        case.update(workers=1, steps=rng.choice([36, 44]), p_fail=0.0, capped_data=True)
     layout_other = None
     if kind == "hyperband" and not gp and p.get("type") != "pasha" and rng.random() < 0.45:
         # several brackets; an unrelated instance gets the same number of brackets and of rung levels but
@@ -443,6 +454,8 @@ def judge(ctx, case, ra, rb, hashseeds, facts=None, funcmap=None):
             ctx.h("options", "restrict_configurations list object shared with unrelated instances")
         if case.get("rush_interleaved"):
             ctx.h("options", "RUSH twin with threshold candidates, unrelated RUSH instances with shifted losses")
+        if case.get("capped_data"):
+            ctx.h("options", "GP FIFO twin with max_size_data_for_model in {4,5,6} (>= 12 sequential trials)")
         if case.get("long_hypertune"):
             ctx.h("options", "long Hyper-Tune twin (>= 30 suggestions)")
         if case.get("layout"):
@@ -959,7 +972,8 @@ def run(ctx, replay=None):
     for v in GP_VARIANTS:
         k = n_gp * (3 if v[2] in boost else 1)
         for i in range(k):
-            gp_cases.append(gen_sched_case(rng, v, gp=True, profile=(i == 0)))
+            gp_cases.append(gen_sched_case(rng, v, gp=True, profile=(i == 0),
+                                           capped=(i == 1 and v[2] == "fifo_bayesopt")))
     # long Hyper-Tune twins: >= 30 suggestions, reports at all rung levels (its cross-validated ensemble weights need
     # >= 6 observations at the second rung level before that code runs at all)
     ht = [v for v in GP_VARIANTS if v[1].get("searcher") == "hypertune"][0]
